@@ -160,6 +160,78 @@ def body_deletions(text, rules):
     return dels
 
 
+def split_top(text):
+    """split at commas that are not nested in brackets / angle brackets"""
+    out, d, cur = [], 0, ''
+    for ch in text:
+        if ch in '([{<':
+            d += 1
+        elif ch in ')]}>':
+            d -= 1
+        if ch == ',' and d == 0:
+            out.append(cur)
+            cur = ''
+        else:
+            cur += ch
+    out.append(cur)
+    return out
+
+
+def closure_param_name(p):
+    p = p.split(':', 1)[0].strip()
+    return re.sub(r'^(mut|ref)\s+', '', p)
+
+
+def find_closures(mb):
+    """closures of a masked function body, in source order: (param_open, param_close, body_start, body_end, is_block).
+    A closure starts with `|` (optionally after `move`) where an expression is expected: after `(`, `,`, `=` or `move`."""
+    out = []
+    i = 0
+    n = len(mb)
+    while i < n:
+        if mb[i] == '|':
+            j = i - 1
+            while j >= 0 and mb[j] in ' \t\n':
+                j -= 1
+            prev = mb[j] if j >= 0 else ''
+            is_move = mb[max(0, j - 3):j + 1] == 'move' and (j < 4 or not (mb[j - 4].isalnum() or mb[j - 4] == '_'))
+            if prev in '(,=' or is_move:
+                if mb.startswith('||', i):
+                    p_open, p_close = i, i + 1
+                else:
+                    p_open = i
+                    p_close = mb.find('|', i + 1)
+                    if p_close < 0:
+                        raise ExtractError('unterminated closure parameter list')
+                b = p_close + 1
+                while b < n and mb[b] in ' \t\n':
+                    b += 1
+                if mb[b] == '{':
+                    e = match_close(mb, b) + 1
+                    out.append((p_open, p_close, b, e, True))
+                else:
+                    d = 0
+                    e = b
+                    while e < n:
+                        if mb[e] in '([{':
+                            d += 1
+                        elif mb[e] in ')]}':
+                            if d == 0:
+                                break
+                            d -= 1
+                        elif mb[e] in ',;' and d == 0:
+                            break
+                        e += 1
+                    out.append((p_open, p_close, b, e, False))
+                i = p_close + 1
+                continue
+            elif mb.startswith('||', i):
+                i += 2
+                continue
+        i += 1
+    return out
+
+
 def strip_leading_attrs(text, rules, what):
     """Remove doc comments and harmless attributes before an item (D3).  Returns
     (kept_attrs_text, rest_offset).  Unknown attributes raise."""
@@ -312,7 +384,7 @@ class Extractor:
                                  sha256=hashlib.sha256(raw.encode()).hexdigest(), rules=rules))
         return out, S
 
-    def fn(self, rel, container, name, opts, contract, loops):
+    def fn(self, rel, container, name, opts, contract, loops, closures=None):
         S = self.src(rel)
         lo, hi = self._scope(S, container)
         f = S.find_fn(name, lo, hi)
@@ -348,7 +420,8 @@ class Extractor:
             segs += pre
             segs.append(Seg(f'-> ({retname}: {ty})\n'))
             if wm:
-                segs.append(Seg(sig[tend:], sig_start + tend))
+                wdels = [(d[0] - tend, d[1] - tend) + tuple(d[2:]) for d in sig_dels if d[0] >= tend]
+                segs += _apply_deletions(sig[tend:], sig_start + tend, wdels)
             rules.append(('E1', 'named return value', retname))
         else:
             segs += _apply_deletions(sig, sig_start, sig_dels)
@@ -356,6 +429,10 @@ class Extractor:
                 segs.append(Seg('\n'))
         if opts.get('vis') == 'pub' and not sig.lstrip().startswith('pub'):
             segs.insert(0, Seg('pub '))
+        if opts.get('isolation') == 'false':
+            # verifier option (specification only): facts established before a loop stay known inside it
+            segs.insert(0, Seg('#[verifier::loop_isolation(false)]\n'))
+            rules.append(('E1', 'verifier attribute loop_isolation(false)', ''))
         # ---- contract (E1) ----
         if contract.strip():
             segs.append(Seg(contract if contract.endswith('\n') else contract + '\n'))
@@ -380,6 +457,29 @@ class Extractor:
                     elif mb[j] == '{' and d == 0:
                         break
                     j += 1
+                dm = re.search(r'^//@DESUGAR (\w+)\n?', inv, re.M)
+                if dm:
+                    # rule F1: `for PAT in EXPR { BODY }` is rewritten to its definition in the Rust Reference
+                    #   { let mut IT = IntoIterator::into_iter(EXPR); loop INVARIANT { let PAT = match IT.next() { Some(v) => v, None => break }; BODY } }
+                    # (Verus: "for-loops do not yet support continue"; `loop` does). BODY is unchanged; `continue` / `break` keep their meaning.
+                    inv = inv.replace(dm.group(0), '')
+                    itn = dm.group(1)
+                    if loop_pos[k].group(1) != 'for':
+                        raise ExtractError(f'fn {name}: loop {k} is not a `for` loop')
+                    seg = mb[loop_pos[k].end():j]
+                    im = re.search(r'\bin\b', seg)
+                    if not im:
+                        raise ExtractError(f'fn {name}: loop {k}: no `in`')
+                    pat = body[loop_pos[k].end():loop_pos[k].end() + im.start()].strip()
+                    expr = body[loop_pos[k].end() + im.end():j].strip()
+                    close = match_close(mb, j)
+                    dels.append((loop_pos[k].start(), j,
+                                 '{ let mut ' + itn + ' = core::iter::IntoIterator::into_iter(' + expr + ');\nloop\n' + inv.rstrip('\n') + '\n'))
+                    inserts.append((j + 1, ' let ' + pat + ' = match ' + itn + '.next() { Some(v__) => v__, None => break };', True))
+                    inserts.append((close + 1, ' }', True))
+                    rules.append(('F1', f'loop {k}: for-loop desugared (Rust Reference) to loop + next(), iterator named {itn}', norm_ws(pat + ' in ' + expr)[:80]))
+                    rules.append(('E2', f'loop {k} invariant', f'{len(inv.splitlines())} lines'))
+                    continue
                 nm = re.search(r'^//@NAME (\w+)\n?', inv, re.M)
                 if nm:
                     inv = inv.replace(nm.group(0), '')
@@ -391,6 +491,27 @@ class Extractor:
                     inserts.append((loop_pos[k].end() + im.end(), ' ' + nm.group(1) + ':', True))
                 inserts.append((j, inv))
                 rules.append(('E2', f'loop {k} invariant', f'{len(inv.splitlines())} lines'))
+        # ---- E5: closure contracts (typed parameters, named return value, requires / ensures; the body is unchanged) ----
+        if closures:
+            mb = mask(body)
+            cl_pos = find_closures(mb)
+            for k, cl in closures.items():
+                if k >= len(cl_pos):
+                    raise ExtractError(f'fn {name}: closure ordinal {k} not found ({len(cl_pos)} closures)')
+                p_open, p_close, b_start, b_end, is_block = cl_pos[k]
+                have = [closure_param_name(x) for x in split_top(body[p_open + 1:p_close]) if x.strip()]
+                want = [closure_param_name(x) for x in split_top(cl['params']) if x.strip()]
+                if have != want:
+                    raise ExtractError(f'fn {name}: closure {k} has parameters {have}, the unit expects {want}')
+                dels.append((p_open + 1, p_close, cl['params']))
+                spec = ' -> (' + cl['ret'] + ')\n' + cl['spec'].rstrip('\n') + '\n'
+                if is_block:
+                    inserts.append((b_start, spec, True))
+                else:
+                    inserts.append((b_start, spec + '{ ', True))
+                    inserts.append((b_end, ' }', True))
+                rules.append(('E5', f'closure {k} contract', norm_ws(cl['params'] + ' -> ' + cl['ret'])[:80]))
+            dels.sort(key=lambda d: (d[0], d[1]))
         # combine deletions and insertions
         pos = 0
         events = sorted([(d[0], 0, d[1], d[2] if len(d) > 2 else None) for d in dels]
@@ -521,6 +642,7 @@ def build_unit(template_path, repo_root, vacuity=False):
             opts = dict(p.split('=', 1) for p in parts[3:])
             contract = []
             loops = {}
+            closures = {}
             cur = contract
             i += 1
             while i < len(tl) and not tl[i].strip().startswith('//@END'):
@@ -533,6 +655,15 @@ def build_unit(template_path, repo_root, vacuity=False):
                     for extra in la[1:]:
                         if extra.startswith('name='):
                             cur.append('//@NAME ' + extra[5:])
+                        if extra.startswith('desugar='):
+                            cur.append('//@DESUGAR ' + extra[8:])
+                elif m2 and m2.group(1) == 'CLOSURE':
+                    # //@CLOSURE k | typed parameter list | ret: Type      (following lines: requires / ensures)
+                    cp = [x.strip() for x in m2.group(2).split('|')]
+                    if len(cp) != 3:
+                        raise ExtractError(f'{template_path}:{i+1}: CLOSURE needs "k | params | ret: Type"')
+                    closures[int(cp[0])] = dict(params=cp[1], ret=cp[2], lines=[])
+                    cur = closures[int(cp[0])]['lines']
                 elif m2:
                     raise ExtractError(f'{template_path}:{i+1}: directive inside FN block')
                 else:
@@ -543,8 +674,10 @@ def build_unit(template_path, repo_root, vacuity=False):
             i += 1
             ctext = '\n'.join(contract)
             ltext = {k: '\n'.join(v) for k, v in loops.items()}
+            for c in closures.values():
+                c['spec'] = '\n'.join(c['lines'])
             label = opts.get('label', name)
-            segs, S = ex.fn(rel, container, name, opts, ctext, ltext)
+            segs, S = ex.fn(rel, container, name, opts, ctext, ltext, closures)
             emit_segs(segs, S, label, opts.get('tag', ''))
             if vacuity and not opts.get('novac'):
                 # vacuity guard: a renamed COPY of the function with `ensures false` added; callers keep seeing the
@@ -559,7 +692,7 @@ def build_unit(template_path, repo_root, vacuity=False):
                     else:
                         vtext = vtext + '\n    ensures false,'
                 nrec = len(ex.records)
-                vsegs, S2 = ex.fn(rel, container, name, opts, vtext, ltext)
+                vsegs, S2 = ex.fn(rel, container, name, opts, vtext, ltext, closures)
                 del ex.records[nrec:]
                 done = False
                 for sg in vsegs:
